@@ -476,6 +476,21 @@ func genC10(r *rng, tier string, res *Result) {
 		res.Cases++
 		res.Distinct++
 	}
+	// readers of a large value (a copy that takes milliseconds) on the memory-mapped file system racing
+	// with Close and with Delete + Compact: no memory fault
+	for i := 0; i < scale(tier, 6, 60) && !raceOn; i++ { // (the race-detector build runs the small-value stress only)
+		if fault := c14Race(r, filepath.Join(tmp, fmt.Sprintf("big%d", i)), i%2 == 1); fault != "" {
+			what := "Close"
+			if i%2 == 1 {
+				what = "Delete + Compact"
+			}
+			res.Findings = append(res.Findings, &Finding{Kind: "spec", Case: fmt.Sprintf("C10/big/%d", i), Cmd: "Get / GetAppend of an 8 MiB value on fs.OSMMap racing with " + what,
+				Impl: []string{clip(fault)}, Expected: []string{"no memory fault"},
+				Program: []string{"open (fs.OSMMap)", "put big <8 MiB>", "goroutines: loop Get(big) / GetAppend(big, <prefix>)", "main: " + what}})
+			break
+		}
+		res.Tags["large_value_reads_racing_with_unmapping"]++
+	}
 	// after Close no goroutine started by the database is left
 	time.Sleep(50 * time.Millisecond)
 	if after := runtime.NumGoroutine(); after > before+2 {
